@@ -21,12 +21,18 @@ Streams (all from ctx.rng):
             one base circuit or holding a copy.  After every call: the clauses for the CURRENT circuit and
             device, equality with a fresh object, currency of the circuits / inputs / arguments handed to
             the callback, the model on the current data and on the cumulative program.
+  * "keep"  RETAINED RESULTS (see the section of that name): every value handed out by the three classes and by
+            choi_from_unitary is kept - the very object plus a deep copy - and re-checked after every later step
+            of a sequence over several objects of the same and of other classes and sizes (a directed corpus
+            that always runs first, then random sequences from a stream of their own); the "hist" stream keeps
+            such a ledger for every history too.  Oracle-only (the model has no object identity).
 Oracles are evaluated on the implementation alone: the reference is choi_from_unitary(V) with V the
 dual-rail transfer matrix of the base circuit obtained from the implementation's Simulator.
 """
 
 from __future__ import annotations
 
+import copy
 import json
 import random
 import warnings
@@ -603,11 +609,21 @@ def check_hist_process(ctx: Ctx, n: int, o: dict, st: dict, ptab: dict, cache: d
     rec = o["rec"]
     reset_rec(rec)
     tomo = o["tomo"]
+    led = info.get("ledger")
+    name = f"{CLS[cls].__name__} #{o.get('key', 0)} (n = {n})"
+    target_in = None
+    if led is not None and target is not None:
+        target_in = np.array(target)  # the client's own array: process() must leave it alone
+        led.hand_in(target_in, f"the target matrix handed to process() call #{o['calls'] + 1} of {name}")
     try:
-        got = tomo.process(target) if cls == "gf" else np.array(tomo.process())
+        raw = tomo.process(target if target_in is None else target_in) if cls == "gf" else tomo.process()
+        got = raw if cls == "gf" else np.array(raw)
     except Exception as e:  # noqa: BLE001
         return [f"oracle: {CLS[cls].__name__}.process() raised {exc_class(e)} on noiseless data: {e}"]
     info["processes"] += 1
+    if led is not None:
+        # everything handed out earlier in this history (by this and by the other objects) is still what it was
+        probs += led.recheck(ctx, f"process() call #{o['calls'] + 1} of {name}", worked=("obj", o.get("key", 0)))
     n_exp = (N_INPUTS[cls] ** n) * (3**n)
     if rec["calls"] == 0:
         ctx.count("hist:callback-not-called (data reused)")
@@ -660,14 +676,26 @@ def check_hist_process(ctx: Ctx, n: int, o: dict, st: dict, ptab: dict, cache: d
                 probs.append("oracle: .fidelity differs from the value process() returned")
         except Exception as e:  # noqa: BLE001
             probs.append(f"oracle: .fidelity raised {exc_class(e)}")
+    # ---- RETAINED RESULTS: the very objects handed out now are kept (with a deep copy) and re-checked after
+    #      every later step of the history, starting with the work of the fresh object below
+    spec = {"ref": ref, "lam": lam, "want": want if cls == "gf" else None}
+    if led is not None:
+        probs += retain_call(ctx, led, tomo, cls, n, name, ("obj", o.get("key", 0)), o["calls"] + 1, raw, spec)
     # ---- a fresh object of the same class on the current base circuit and device
     frec = new_rec()
     fresh = CLS[cls](n, base, make_hist_experiment({"id": -1, "noise": lam_s, "kind": "function"}, frec, n, cache))
     try:
-        fgot = fresh.process(target) if cls == "gf" else np.array(fresh.process())
+        fraw = fresh.process(target) if cls == "gf" else fresh.process()
+        fgot = fraw if cls == "gf" else np.array(fraw)
     except Exception as e:  # noqa: BLE001
         probs.append(f"oracle: process() of a fresh {CLS[cls].__name__} on the same base circuit raised {exc_class(e)}")
         fgot = None
+    if led is not None:
+        probs += led.recheck(ctx, f"process() of another (fresh) {CLS[cls].__name__} on the same base circuit")
+        if fgot is not None:
+            info["fresh"] = info.get("fresh", 0) + 1
+            probs += retain_call(ctx, led, fresh, cls, n, f"fresh {CLS[cls].__name__} #{info['fresh']} (n = {n})",
+                                 ("fresh", info["fresh"]), 1, fraw, spec)
     if fgot is not None:
         ctx.count("hist:compared-with-fresh-object")
         if cls == "gf":
@@ -778,13 +806,20 @@ def run_hist(ctx: Ctx, case: dict, want_info: bool = False):
     objs: dict = {}
     cache: dict = {}
     probs: list[str] = []
-    info = {"processes": 0, "v_changed": 0, "noise_changed": 0, "modes_changed": 0, "ops": set(), "cls": set()}
+    led = Ledger()
+    info = {"processes": 0, "v_changed": 0, "noise_changed": 0, "modes_changed": 0, "ops": set(), "cls": set(),
+            "ledger": led}
     order = c15.observe_order(ctx, n)
     if None in order or sorted(order) != sorted(tm.all_settings(n)):
         p = ["oracle: requested measurement circuits cannot be identified (see C15)"]
         return (p, info) if want_info else p
     for i, st in enumerate(case["steps"]):
         op = st["op"]
+        if i and case["steps"][i - 1]["op"] not in ("new", "process"):
+            # retained results describe the configuration they were computed for: changing the circuit, a
+            # Parameter, the experiment or its arguments afterwards must not touch them
+            probs += [x + f" [history step {i - 1}]" for x in
+                      led.recheck(ctx, f"the step '{case['steps'][i - 1]['op']}' of the history")]
         if op == "new":
             b = main if not st.get("own") else {"circ": main["circ"].copy(), "cum": list(main["cum"])}
             rec = new_rec()
@@ -792,7 +827,7 @@ def run_hist(ctx: Ctx, case: dict, want_info: bool = False):
             args = st.get("args")
             tomo = CLS[st["cls"]](n, b["circ"], make_hist_experiment(cfg, rec, n, cache),
                                   None if args is None else list(args))
-            objs[st["obj"]] = {"cls": st["cls"], "tomo": tomo, "rec": rec, "cfg": cfg, "args": args, "b": b,
+            objs[st["obj"]] = {"cls": st["cls"], "key": st["obj"], "tomo": tomo, "rec": rec, "cfg": cfg, "args": args, "b": b,
                                "own": bool(st.get("own")), "calls": 0, "pending": set(), "lastV": None,
                                "firstV": None, "last_lam": None, "last_modes": None, "last_target": None}
             info["cls"].add(st["cls"])
@@ -835,6 +870,9 @@ def run_hist(ctx: Ctx, case: dict, want_info: bool = False):
             raise AssertionError(f"unknown history step {op}")
         for k in touched:
             objs[k]["pending"].add(tag)
+    if case["steps"] and case["steps"][-1]["op"] not in ("new", "process"):
+        probs += [x + f" [history step {len(case['steps']) - 1}]" for x in
+                  led.recheck(ctx, f"the step '{case['steps'][-1]['op']}' of the history")]
     return (probs, info) if want_info else probs
 
 
@@ -1061,7 +1099,7 @@ HIST_CORPUS = [
 def shrink_hist(ctx: Ctx, case: dict, first: str) -> dict:
     def still(steps):
         try:
-            return any(first in p for p in run_hist(ctx, dict(case, steps=steps)))
+            return any(first in p for p in run_case(ctx, dict(case, steps=steps)))
         except Exception:  # noqa: BLE001  (a history that is no longer well formed)
             return False
 
@@ -1075,12 +1113,493 @@ def shrink_hist(ctx: Ctx, case: dict, first: str) -> dict:
     return dict(case, steps=steps)
 
 
+# --------------------------------------------------------------------------- retained results
+#
+# Clients keep what the three classes hand out: the arrays process() returns (`chois = [T(1, c, exp).process()
+# for c in circuits]`), the objects themselves (`.choi`, `.fidelity(...)`, `.fidelity` read later), the
+# reference matrices of choi_from_unitary.  A Ledger holds, for every value handed out, THE VERY OBJECT plus an
+# independent deep copy taken at that time and the configuration (V, device) it was computed for, and
+# re-checks all of them after every later step - the next process() of the same object, the work of OTHER
+# objects of the same class and size, of other classes, of other sizes, changes of the circuit / device the
+# result was computed from, a client post-processing one of the returned arrays in place:
+#   * the very object still equals its deep copy and still satisfies the property's clauses for ITS
+#     configuration; `.choi`, `.fidelity(reference)`, `.fidelity` of every object still report the result of
+#     that object's last process();
+#   * results of different process() calls (of one or of several objects) do not share memory, nor do they
+#     share memory with arrays of the client (targets, references, unitaries handed in), which in turn are
+#     left unmodified, as are the result dictionaries the experiment returned;
+#   * writing into a returned array changes nothing but that array (and the `.choi` of the object that
+#     returned it WHEN that is the very same ndarray, which is how the unchanged library hands it out: counted,
+#     see SCRIBBLE_MAY_SHOW_IN_OWNER): not what other objects report, not results retained from other calls,
+#     not what the next process() returns.
+# The model has no notion of object identity: all of this is oracle-only.  The "keep" stream drives it with
+# sequences over several jobs (class, n, circuit, device) - run / run again / run with a new object on the
+# same circuit / extend the circuit / scribble on a retained array / choi_from_unitary; the "hist" stream
+# keeps a ledger per history as well (including the fresh comparison objects it creates).
+
+SCRIBBLES = ["zero", "scale", "elem", "adjoint"]
+# process() returns the object's own `.choi` ndarray on the unchanged library (no defensive copy), so a client
+# writing into the returned array is seen by `.choi` / `.fidelity(...)` of THAT object until its next
+# process().  Counted and reported to the maintainers of the framework, not raised (set False to raise it).
+SCRIBBLE_MAY_SHOW_IN_OWNER = True
+
+
+def _same(a, b) -> bool:
+    """a retained value against its deep copy (bit for bit; type, dtype and shape included)"""
+    if isinstance(a, np.ndarray) or isinstance(b, np.ndarray):
+        return isinstance(a, np.ndarray) and isinstance(b, np.ndarray) and a.shape == b.shape \
+            and a.dtype == b.dtype and bool(np.array_equal(a, b, equal_nan=True))
+    try:
+        return type(a) is type(b) and bool(a == b)
+    except Exception:  # noqa: BLE001
+        return False
+
+
+def _maxdiff(a, b) -> str:
+    try:
+        return f"{np.abs(np.asarray(a) - np.asarray(b)).max():.3g}"
+    except Exception:  # noqa: BLE001
+        return "shape/type"
+
+
+def _overlap(a, b) -> bool:
+    return isinstance(a, np.ndarray) and isinstance(b, np.ndarray) and np.may_share_memory(a, b) \
+        and bool(np.shares_memory(a, b))
+
+
+def choi_of_unitary(v: np.ndarray) -> np.ndarray:
+    """Choi matrix of rho -> V rho V^dagger in the convention E(rho)[c,d] = sum_ab rho[a,b] C[(a,c),(b,d)]
+    (the definition the "ref" stream checks choi_from_unitary against)"""
+    d = v.shape[0]
+    return np.einsum("ca,db->acbd", v, v.conj()).reshape(d * d, d * d)
+
+
+def result_clauses(cls: str, n: int, value, spec: dict) -> list[str]:
+    """the property's clauses for ONE result, for the configuration (V, device) it was computed for"""
+    d = 2**n
+    ref, lam = spec["ref"], spec["lam"]
+    if cls == "gf":
+        try:
+            ok = abs(value - spec["want"]) <= TOL
+        except Exception:  # noqa: BLE001
+            ok = False
+        return [] if ok else [f"gate fidelity {value!r:.40} is not the (|tr(U^dag V)|^2+d)/(d(d+1)) = {spec['want']:.9f} "
+                              f"of the target and circuit it was computed for"]
+    choi = np.asarray(value)
+    if choi.shape != ref.shape:
+        return [f"Choi matrix of shape {choi.shape}, expected {ref.shape}"]
+    if cls == "ref":
+        return [] if np.all(np.abs(choi - ref) <= TOL) else \
+            [f"choi_from_unitary(V) is not the Choi matrix of the V it was computed for (max {np.abs(choi - ref).max():.3f})"]
+    out = []
+    if cls == "li":
+        want = ref if lam == 0 else (1 - lam) * ref + lam * np.eye(d * d) / d
+        if not np.all(np.abs(choi - want) <= TOL):
+            out.append(f"LI choi differs from choi_from_unitary(V) of the circuit it was computed for"
+                       + ("" if lam == 0 else f" mixed with the depolarising channel (noise {lam})")
+                       + f" (max {np.abs(choi - want).max():.3f})")
+        return out
+    if lam == 0:
+        try:
+            f = process_fidelity(choi, ref)
+            if f < 0.99:
+                out.append(f"MLE fidelity against choi_from_unitary(V) of the circuit it was computed for is {f:.4f} < 0.99")
+        except Exception as e:  # noqa: BLE001
+            out.append(f"process_fidelity of the MLE choi raised {exc_class(e)}")
+    herm = (choi + choi.conj().T) / 2
+    if np.abs(choi - herm).max() > 1e-6 or np.linalg.eigvalsh(herm).min() < -1e-6:
+        out.append("MLE choi is not positive semi-definite")
+    pt = np.einsum(choi.reshape(d, d, d, d), [0, 1, 2, 1])
+    if np.abs(pt - np.eye(d)).max() > 1e-2:
+        out.append(f"MLE choi is not trace preserving (partial trace off by {np.abs(pt - np.eye(d)).max():.3f})")
+    return out
+
+
+class Ledger:
+    """every value handed out: the very object, a deep copy taken at the time, what it must satisfy"""
+
+    def __init__(self) -> None:
+        self.entries: list[dict] = []
+        self.owners: dict = {}
+        self.client: list[dict] = []
+        self.rechecks = 0
+
+    # -- registration
+    def hand_in(self, arr: np.ndarray, what: str) -> None:
+        """an array of the client that is handed to the library (target, reference, unitary)"""
+        self.client.append({"raw": arr, "copy": np.array(arr, copy=True), "what": what})
+
+    def keep(self, raw, what: str, call, cls: str, n: int, spec: dict):
+        probs = []
+        if isinstance(raw, np.ndarray):
+            for e in self.entries:
+                if e["call"] != call and _overlap(raw, e["raw"]):
+                    probs.append(f"oracle: retained results alias each other: {what} "
+                                 + ("IS the very ndarray" if raw is e["raw"] else "shares memory with") + f" {e['what']}")
+            for h in self.client:
+                if _overlap(raw, h["raw"]):
+                    probs.append(f"oracle: retained results alias each other: {what} shares memory with {h['what']}")
+        e = {"raw": raw, "copy": copy.deepcopy(raw), "what": what, "call": call, "cls": cls, "n": n, "spec": spec,
+             "live": True}
+        self.entries.append(e)
+        return e, probs
+
+    def set_owner(self, key, tomo, cls: str, name: str, entry: dict, attr, ref, fid) -> None:
+        self.owners[key] = {"tomo": tomo, "cls": cls, "what": name, "entry": entry, "attr_copy": copy.deepcopy(attr),
+                            "ref": ref, "fid": fid}
+
+    # -- the client post-processes a returned array in place
+    def scribble(self, ctx: Ctx, k: int, how: str):
+        arrs = [e for e in self.entries if isinstance(e["raw"], np.ndarray) and e["raw"].ndim == 2]
+        if not arrs:
+            ctx.count("keep:nothing-to-scribble-on")
+            return None
+        e = arrs[k % len(arrs)]
+        raw = e["raw"]
+        if not raw.flags.writeable:
+            ctx.count("keep:returned-array-is-read-only (not scribbled on)")
+            return None
+        if how == "zero":
+            raw[...] = 0
+        elif how == "scale":
+            raw *= -2
+        elif how == "elem":
+            raw[0, -1] += 1
+        else:
+            raw[...] = raw.conj().T.copy() + 1j
+        ctx.count("keep:scribble-" + how)
+        e["copy"] = raw.copy()
+        e["live"] = False
+        if "(then written into by the client)" not in e["what"]:
+            e["what"] += " (then written into by the client)"
+        for o in self.owners.values():
+            if o["entry"] is not e or o["cls"] == "gf":
+                continue
+            try:
+                cur = o["tomo"].choi
+            except Exception:  # noqa: BLE001
+                continue
+            if cur is raw or _overlap(cur, raw):
+                ctx.count("keep:scribble-shows-in-.choi-of-the-object (process() returns the object's own ndarray)")
+                if SCRIBBLE_MAY_SHOW_IN_OWNER:
+                    o["attr_copy"] = copy.deepcopy(cur)
+                    o["fid"] = None
+            else:
+                ctx.count("keep:scribble-on-a-copy (the object keeps its own array)")
+        return e["what"]
+
+    # -- re-check everything after a later step
+    def recheck(self, ctx: Ctx, after: str, worked=None) -> list[str]:
+        """`worked`: the object whose own process() is the step (its .choi / .fidelity now report the new result;
+        what it handed out BEFORE stays on the books as entries)"""
+        probs = []
+        for e in self.entries:
+            self.rechecks += 1
+            if not _same(e["raw"], e["copy"]):
+                probs.append(f"oracle: retained result changed: {e['what']} is no longer what was handed out "
+                             f"(max difference {_maxdiff(e['raw'], e['copy'])}) after {after}")
+                e["copy"] = copy.deepcopy(e["raw"])
+                e["live"] = False
+            elif e["live"]:
+                bad = result_clauses(e["cls"], e["n"], e["raw"], e["spec"])
+                if bad:
+                    probs.append(f"oracle: retained result no longer satisfies its clauses: {e['what']}: {bad[0]}, after {after}")
+                    e["live"] = False
+        for h in self.client:
+            if not _same(h["raw"], h["copy"]):
+                probs.append(f"oracle: client array modified: {h['what']} (max difference "
+                             f"{_maxdiff(h['raw'], h['copy'])}) after {after}")
+                h["copy"] = np.array(h["raw"], copy=True)
+        for key, o in self.owners.items():
+            if key == worked:
+                continue
+            self.rechecks += 1
+            attr = "fidelity" if o["cls"] == "gf" else "choi"
+            try:
+                cur = getattr(o["tomo"], attr)
+            except Exception as e:  # noqa: BLE001
+                probs.append(f"oracle: retained result changed: .{attr} of {o['what']} raises {exc_class(e)} after {after}")
+                continue
+            if not _same(cur, o["attr_copy"]):
+                probs.append(f"oracle: retained result changed: .{attr} of {o['what']} no longer is what its last "
+                             f"process() returned (max difference {_maxdiff(cur, o['attr_copy'])}) after {after}")
+                o["attr_copy"] = copy.deepcopy(cur)
+                o["fid"] = None
+            elif o["cls"] != "gf" and o["fid"] is not None:
+                try:
+                    f = o["tomo"].fidelity(o["ref"])
+                except Exception as e:  # noqa: BLE001
+                    probs.append(f"oracle: retained result changed: .fidelity(choi_from_unitary(V)) of {o['what']} "
+                                 f"raises {exc_class(e)} after {after}")
+                    o["fid"] = None
+                    continue
+                if not abs(f - o["fid"]) <= 1e-12:
+                    probs.append(f"oracle: retained result changed: .fidelity(choi_from_unitary(V)) of {o['what']} "
+                                 f"now reports {f:.6f}, it reported {o['fid']:.6f} after its process(), after {after}")
+                    o["fid"] = f
+        return probs
+
+
+def retain_call(ctx: Ctx, led: Ledger, tomo, cls: str, n: int, name: str, key, call_no: int, raw, spec: dict) -> list[str]:
+    """register everything ONE process() call handed out and everything the object now reports"""
+    call = (key, call_no)
+    kind = "gate fidelity" if cls == "gf" else "Choi matrix"
+    e, probs = led.keep(raw, f"the {kind} returned by process() call #{call_no} of {name}", call, cls, n, spec)
+    try:
+        if cls == "gf":
+            attr = tomo.fidelity
+            if not _same(attr, raw):
+                probs.append(f"oracle: .fidelity of {name} differs from the value its process() returned")
+            led.set_owner(key, tomo, cls, name, e, attr, None, None)
+            return probs
+        attr = tomo.choi
+        if attr is raw:
+            ctx.count("keep:.choi-is-the-returned-ndarray")
+        elif not _same(np.asarray(attr), np.asarray(raw)):
+            probs.append(f"oracle: .choi of {name} differs from the matrix its process() returned")
+        elif isinstance(attr, np.ndarray):
+            _, p2 = led.keep(attr, f".choi of {name} read after its process() call #{call_no}", call, cls, n, spec)
+            probs += p2
+        ref_in = np.array(spec["ref"], copy=True)
+        led.hand_in(ref_in, f"the reference matrix handed to .fidelity() of {name}")
+        fid = tomo.fidelity(ref_in)
+        led.set_owner(key, tomo, cls, name, e, attr, ref_in, fid)
+    except Exception as ex:  # noqa: BLE001
+        probs.append(f"oracle: reading the results of {name} after process() raised {exc_class(ex)}: {ex}")
+    return probs
+
+
+def make_keep_experiment(cfg: dict, rec: dict, n: int, cache: dict, held: list):
+    """the device callback of the histories; the dictionaries it returns stay with the client (held)"""
+    inner = make_hist_experiment(dict(cfg, kind="function"), rec, n, cache)
+
+    def experiment(circuits, inputs, *extra):
+        out = inner(circuits, inputs, *extra)
+        held.append((out, [dict(x) for x in out]))
+        return out
+
+    return experiment
+
+
+def keep_process(ctx: Ctx, led: Ledger, jobs: list, st: dict, cache: dict, info: dict):
+    """one process() call of the "keep" stream: (problems, description of the step)"""
+    j = st["job"]
+    jb = jobs[j]
+    cls, n = jb["cls"], jb["n"]
+    d = 2**n
+    probs: list[str] = []
+    u = normalise_unitary(transfer_matrix(jb["circ"], n))
+    if u is None:
+        ctx.count("keep:not-unitary (call skipped)")
+        return probs, None
+    if jb["tomo"] is None or st.get("fresh"):
+        if jb["tomo"] is not None:
+            ctx.count("keep:new-object-on-a-circuit-measured-before")
+        jb["objs"] += 1
+        jb["calls"] = 0
+        jb["rec"] = new_rec()
+        jb["tomo"] = CLS[cls](n, jb["circ"], make_keep_experiment({"id": j, "noise": jb["noise"]}, jb["rec"], n, cache,
+                                                                jb["held"]))
+    tomo = jb["tomo"]
+    jb["calls"] += 1
+    key = ("job", j, jb["objs"])
+    name = f"{CLS[cls].__name__} #{j}.{jb['objs']} (n = {n})"
+    ref = np.array(choi_from_unitary(u))
+    lam = float(Fraction(jb["noise"]))
+    spec = {"ref": ref, "lam": lam, "want": None}
+    target = None
+    if cls == "gf":
+        target = np.array(u) if st.get("target", "V") == "V" else tm.q2mat(st["mat"])
+        led.hand_in(target, f"the target matrix handed to process() call #{jb['calls']} of {name}")
+        f_v = (abs(np.trace(target.conj().T @ u)) ** 2 + d) / (d * (d + 1))
+        spec["want"] = f_v if lam == 0 else (1 - lam) * f_v + lam / d
+    # whose results are on the books while this object works
+    for k2, o in led.owners.items():
+        if k2 == key:
+            rel = "the-same-object"
+        else:
+            same_n = o["entry"]["n"] == n
+            rel = ("another-object-of-the-same-class" if o["cls"] == cls else "an-object-of-another-class") + \
+                  ("-and-size" if same_n else "-of-another-size")
+            info["after_other"] += 1
+        ctx.count("keep:retained-while-" + rel + "-works")
+    jb["held"].clear()
+    reset_rec(jb["rec"])
+    try:
+        raw = tomo.process(target) if cls == "gf" else tomo.process()
+    except Exception as e:  # noqa: BLE001
+        return [f"oracle: {CLS[cls].__name__}.process() raised {exc_class(e)} on noiseless data: {e}"], None
+    info["runs"] += 1
+    ctx.count(f"keep:process-{cls}-n={n}" + ("" if lam == 0 else "-noisy-device"))
+    after = f"process() call #{jb['calls']} of {name}"
+    probs += led.recheck(ctx, after, worked=key)
+    for very, cp in jb["held"]:
+        if len(very) != len(cp) or any(dict(a) != b for a, b in zip(very, cp)):
+            probs.append(f"oracle: client data modified: {after} changed the result dictionaries the experiment returned")
+    if cls != "gf" and not isinstance(raw, np.ndarray):
+        ctx.count("keep:process()-does-not-return-an-ndarray")
+    probs += [f"oracle: {x} [right after {after}]" for x in result_clauses(cls, n, raw, spec)]
+    probs += retain_call(ctx, led, tomo, cls, n, name, key, jb["calls"], raw, spec)
+    o = led.owners.get(key)
+    if o is not None and cls != "gf" and lam == 0 and o["fid"] is not None:
+        if (cls == "li" and abs(o["fid"] - 1) > FID_TOL) or (cls == "mle" and o["fid"] < 0.99):
+            probs.append(f"oracle: {name} reports the fidelity {o['fid']:.6f} against choi_from_unitary(V) "
+                         f"[right after {after}]")
+    return probs, after
+
+
+def run_keep(ctx: Ctx, case: dict, want_info: bool = False):
+    led = Ledger()
+    cache: dict = {}
+    probs: list[str] = []
+    info = {"runs": 0, "after_other": 0, "ledger": led}
+    jobs = [{"cls": s["cls"], "n": s["n"], "noise": s.get("noise", "0"), "circ": tm.build_base(s["n"], s["prog"]),
+             "tomo": None, "rec": None, "objs": 0, "calls": 0, "held": []} for s in case["jobs"]]
+    for i, st in enumerate(case["steps"]):
+        op = st["op"]
+        where = f" [step {i} of the sequence]"
+        if op == "run":
+            p, after = keep_process(ctx, led, jobs, st, cache, info)
+            probs += [x + where for x in p]
+            continue  # (re-checked inside, between the call and the registration of its results)
+        if op == "extend":
+            tm.extend_base(jobs[st["job"]]["circ"], st["gates"])
+            ctx.count("keep:circuit-extended-after-its-results-were-handed-out")
+            after = f"the base circuit of job {st['job']} was extended in place"
+        elif op == "scribble":
+            w = led.scribble(ctx, st["entry"], st["how"])
+            if w is None:
+                continue
+            after = f"the client wrote into {w} ({st['how']})"
+        elif op == "ref":
+            jb = jobs[st["job"]]
+            u = normalise_unitary(transfer_matrix(jb["circ"], jb["n"]))
+            if u is None:
+                continue
+            u_in = np.array(u, copy=True)
+            led.hand_in(u_in, f"the unitary handed to choi_from_unitary at step {i}")
+            try:
+                raw = choi_from_unitary(u_in)
+            except Exception as e:  # noqa: BLE001
+                probs.append(f"oracle: choi_from_unitary raised {exc_class(e)}{where}")
+                continue
+            ctx.count("keep:choi_from_unitary-result-retained")
+            spec = {"ref": choi_of_unitary(u), "lam": 0.0, "want": None}
+            probs += [f"oracle: {x}{where}" for x in result_clauses("ref", jb["n"], raw, spec)]
+            _, p2 = led.keep(raw, f"the matrix returned by choi_from_unitary at step {i}", ("ref", i), "ref", jb["n"], spec)
+            probs += [x + where for x in p2]
+            after = f"choi_from_unitary at step {i}"
+        else:
+            raise AssertionError(f"unknown step {op}")
+        probs += [x + where for x in led.recheck(ctx, after)]
+    return (probs, info) if want_info else probs
+
+
+def gen_keep_case(ctx: Ctx, rng) -> dict:
+    jobs: list = []
+    for k in range(rng.choice([2, 3, 3, 4])):
+        cls = rng.choices(["mle", "li", "gf"], weights=[40, 30, 30])[0]
+        n = None
+        if k == 1 and rng.random() < 0.6:  # two objects of one class and size on different circuits
+            cls, n = jobs[0]["cls"], jobs[0]["n"]
+        if n is None:
+            n = rng.choices([1, 2], weights=[75, 25])[0]
+            if cls == "mle" and not (ctx.thorough and rng.random() < 0.08):
+                n = 1  # (quick tier: MLE at n = 1)
+        prog = tm.rand_gate_program(rng, n, max_len=1 + 2 * n, max_her=0)
+        if not prog:
+            prog = [[rng.choice(["H", "S", "T", "SX", "Y"]), rng.randrange(n)]]
+        jobs.append({"cls": cls, "n": n, "prog": prog, "noise": rng.choices(NOISES, weights=[82, 7, 7, 4])[0]})
+
+    def run_step(j: int, fresh: bool = False) -> dict:
+        st = {"op": "run", "job": j}
+        if fresh:
+            st["fresh"] = True
+        if jobs[j]["cls"] == "gf":
+            st["target"] = rng.choice(["V", "mat"])
+            st["mat"], _ = rand_target(rng, jobs[j]["n"], [])
+        return st
+
+    first = list(range(len(jobs)))
+    rng.shuffle(first)
+    steps = [run_step(j) for j in first]
+    for _ in range(rng.randint(2, 7)):
+        x = rng.random()
+        j = rng.randrange(len(jobs))
+        if x < 0.5:
+            steps.append(run_step(j, fresh=rng.random() < 0.25))
+        elif x < 0.68:
+            q = rng.randrange(jobs[j]["n"])
+            if rng.random() < 0.5:
+                g = [rng.choice(["H", "X", "Y", "Z", "S", "Sadj", "T", "Tadj", "SX"]), q]
+            else:
+                uu = cg.exact_unitary(rng, 2, depth=rng.randint(1, 3))
+                g = ["U", q, [[x.s() for x in row] for row in uu]]
+            steps += [{"op": "extend", "job": j, "gates": [g]}, run_step(j)]
+        elif x < 0.88:
+            steps.append({"op": "scribble", "entry": rng.randrange(64), "how": rng.choice(SCRIBBLES)})
+        else:
+            steps.append({"op": "ref", "job": j})
+    # scribbles also early: between the first runs
+    if rng.random() < 0.3:
+        steps.insert(rng.randint(1, len(jobs)), {"op": "scribble", "entry": rng.randrange(64), "how": rng.choice(SCRIBBLES)})
+    return {"stream": "keep", "jobs": jobs, "steps": steps}
+
+
+def _run(j: int, target: str | None = None, mat=None, fresh: bool = False) -> dict:
+    st: dict = {"op": "run", "job": j}
+    if target:
+        st.update(target=target, mat=mat)
+    if fresh:
+        st["fresh"] = True
+    return st
+
+
+_PS = {"impl": "ps"}
+KEEP_CORPUS = [
+    # several gates are characterised by maximum likelihood one after the other (one object per gate), the
+    # results are looked at afterwards; the first object is used again on its grown circuit; a new object on a
+    # circuit measured before; the client zeroes one returned matrix
+    {"stream": "keep", "jobs": [{"cls": "mle", "n": 1, "prog": [["H", 0]]},
+                                {"cls": "mle", "n": 1, "prog": [["H", 0], ["S", 0]]},
+                                {"cls": "mle", "n": 1, "prog": [["T", 0], ["SX", 0]]}],
+     "steps": [_run(0), _run(1), _run(2), {"op": "extend", "job": 0, "gates": [["Y", 0]]}, _run(0),
+               _run(1, fresh=True), {"op": "scribble", "entry": 0, "how": "zero"}, _run(2), _run(0)]},
+    # all three classes, both sizes, in one process: results of each survive the work of all the others
+    {"stream": "keep", "jobs": [{"cls": "li", "n": 1, "prog": [["SX", 0]]},
+                                {"cls": "gf", "n": 1, "prog": [["H", 0], ["S", 0]]},
+                                {"cls": "li", "n": 2, "prog": [["H", 0], ["CNOT", 0, 1, _PS], ["S", 1]]},
+                                {"cls": "gf", "n": 2, "prog": [["SX", 1], ["CZ", 0, 1, _PS]]},
+                                {"cls": "mle", "n": 1, "prog": [["T", 0], ["H", 0]]},
+                                {"cls": "li", "n": 1, "prog": [["S", 0], ["H", 0]]}],
+     "steps": [_run(0), _run(1, "V", _H), _run(2), _run(3, "mat", _CNOT), _run(4), _run(5), _run(1, "mat", _H),
+               {"op": "ref", "job": 0}, {"op": "scribble", "entry": 0, "how": "scale"}, _run(0), _run(2, fresh=True),
+               {"op": "scribble", "entry": 5, "how": "elem"}, _run(4), {"op": "ref", "job": 0}, _run(5)]},
+    # two LI and two GateFidelity objects of one size on different gates, interleaved; one device is noisy
+    {"stream": "keep", "jobs": [{"cls": "li", "n": 1, "prog": [["H", 0]]},
+                                {"cls": "li", "n": 1, "prog": [["S", 0], ["H", 0]], "noise": "1/4"},
+                                {"cls": "gf", "n": 1, "prog": [["T", 0]]},
+                                {"cls": "gf", "n": 1, "prog": [["SX", 0], ["S", 0]]}],
+     "steps": [_run(0), _run(1), _run(2, "V", _X), _run(3, "V", _X), _run(0), _run(3, "mat", _X),
+               {"op": "extend", "job": 1, "gates": [["T", 0]]}, _run(1), {"op": "scribble", "entry": 1, "how": "adjoint"},
+               _run(0, fresh=True), _run(2, "mat", _SH), _run(1)]},
+    # one MLE object hands out a matrix per stage of its growing circuit; a second MLE and an LI object of the
+    # same size work in between
+    {"stream": "keep", "jobs": [{"cls": "mle", "n": 1, "prog": [["SX", 0]]},
+                                {"cls": "mle", "n": 1, "prog": [["Y", 0], ["T", 0]], "noise": "1/2"},
+                                {"cls": "li", "n": 1, "prog": [["H", 0], ["T", 0]]}],
+     "steps": [_run(0), _run(2), {"op": "extend", "job": 0, "gates": [["S", 0]]}, _run(0), _run(1), _run(2),
+               {"op": "extend", "job": 0, "gates": [["H", 0]]}, _run(0), {"op": "scribble", "entry": 2, "how": "scale"},
+               _run(1), _run(0)]},
+]
+
+
 # --------------------------------------------------------------------------- driver of the check
 
 
 def run_case(ctx: Ctx, case: dict) -> list[str]:
     return {"proc": run_proc, "data": run_data, "ref": run_ref, "init": run_init,
-            "hist": run_hist}[case["stream"]](ctx, case)
+            "hist": run_hist, "keep": run_keep}[case["stream"]](ctx, case)
 
 
 def report(ctx: Ctx, case: dict, probs: list[str]) -> None:
@@ -1104,13 +1623,14 @@ def report(ctx: Ctx, case: dict, probs: list[str]) -> None:
 
         small = dict(case, prog=ddmin(case["prog"], still, max_tests=40))
         probs = run_case(ctx, small) or probs
-    elif case["stream"] == "hist" and len(ctx.violations) < ctx.max_reports:  # (later ones are only counted)
+    elif case["stream"] in ("hist", "keep") and len(ctx.violations) < ctx.max_reports:  # (later ones are only counted)
         lead = [p for p in probs if p.startswith("oracle")] or probs
         small = shrink_hist(ctx, case, lead[0].split(":")[1].strip()[:25])
         probs = run_case(ctx, small) or probs
     oracle = [p for p in probs if p.startswith("oracle")]
-    if oracle and case["stream"] == "hist":
-        ctx.violation(oracle[0], {"case": small, "problems": probs}, sig={"kind": "history", "stream": "hist"})
+    if oracle and case["stream"] in ("hist", "keep"):
+        kind = "retained" if ("retained result" in oracle[0] or "client " in oracle[0]) else "history"
+        ctx.violation(oracle[0], {"case": small, "problems": probs}, sig={"kind": kind, "stream": case["stream"]})
     elif oracle:
         kind = "mle" if "MLE" in oracle[0] else "choi-ref" if "choi" in oracle[0] else oracle[0].split(":")[1].strip()[:40]
         ctx.violation(oracle[0], {"case": small, "problems": probs}, sig={"kind": kind, "stream": case["stream"]})
@@ -1128,7 +1648,14 @@ def run(ctx: Ctx) -> None:
                 "LI / MLE / GateFidelity objects through process - extend the base circuit in place / set a Parameter / "
                 "re-assign experiment or experiment_args - process again (several targets), one to three objects sharing "
                 "the circuit or holding a copy, n = 1, 2 (MLE n = 1); non-trivial = V or the device changed between two "
-                "calls on one object; distinct = distinct history")
+                "calls on one object; distinct = distinct history. keep stream (RETAINED RESULTS, oracle-only): sequences "
+                "over 2-6 jobs (class, n = 1 / 2, circuit, device; MLE at n = 1 in the quick tier) - process / process "
+                "again / a new object on the same circuit / extend the circuit / the client writes into a returned "
+                "array / choi_from_unitary; every value handed out (returned arrays and floats, .choi, .fidelity) is "
+                "kept as the very object plus a deep copy and re-checked after every later step (unchanged, clauses "
+                "of its own configuration, no shared memory between results of different calls, client arrays and "
+                "experiment results left alone); the hist stream keeps such a ledger per history too; non-trivial = "
+                "results were on the books while ANOTHER object worked; distinct = distinct sequence")
     rng = ctx.rng
     n_proc = ctx.n(32, 300)
     n_data = ctx.n(40, 500)
@@ -1136,6 +1663,7 @@ def run(ctx: Ctx) -> None:
     n_init = ctx.n(30, 300)
     mle_model_budget = ctx.n(1, 10)
     n_hist = ctx.n(22, 300)
+    n_keep = ctx.n(16, 200)
     _HIST_BUDGET["n2_model"] = ctx.n(8, 120)
 
     def one_hist(case, directed):
@@ -1149,6 +1677,7 @@ def run(ctx: Ctx) -> None:
         if any(st["op"] == "new" and st.get("own") for st in case["steps"]):
             ctx.count("hist:has-object-on-its-own-copy-of-the-circuit")
         ctx.count("hist:process-calls", info["processes"])
+        ctx.count("hist:retained-results-rechecked:oracle-only", info["ledger"].rechecks)
         for k in ("v_changed", "noise_changed", "modes_changed"):
             if info[k]:
                 ctx.count(f"hist:{k}-between-calls", info[k])
@@ -1162,7 +1691,27 @@ def run(ctx: Ctx) -> None:
             finally:
                 _HIST_BUDGET["n2_model"] = saved
 
+    def one_keep(case, directed):
+        probs, info = run_keep(ctx, case, want_info=True)
+        ctx.count("keep:directed" if directed else "keep:random")
+        ctx.count("keep:oracle-only")
+        ctx.count("keep:jobs=" + str(len(case["jobs"])))
+        if len({j["n"] for j in case["jobs"]}) > 1:
+            ctx.count("keep:has-objects-of-both-sizes")
+        if len({j["cls"] for j in case["jobs"]}) > 1:
+            ctx.count("keep:has-objects-of-several-classes")
+        ctx.count("keep:process-calls", info["runs"])
+        ctx.count("keep:retained-results-rechecked", info["ledger"].rechecks)
+        ctx.case(json.dumps(case, sort_keys=True), bool(info["after_other"]),
+                 sample=case if directed and case is KEEP_CORPUS[0] else None)
+        if probs:
+            report(ctx, case, probs)
+
     # directed histories first (the nastiest shapes), then the older streams, then random histories
+    for case in KEEP_CORPUS:
+        if ctx.out_of_time():
+            break
+        one_keep(case, True)
     for case in HIST_CORPUS:
         if ctx.out_of_time():
             break
@@ -1216,6 +1765,11 @@ def run(ctx: Ctx) -> None:
         if ctx.out_of_time():
             break
         one_hist(gen_hist_case(ctx, hrng), False)
+    krng = random.Random(f"C16-keep-{ctx.seed}")  # own stream as well
+    for _ in range(n_keep):
+        if ctx.out_of_time():
+            break
+        one_keep(gen_keep_case(ctx, krng), False)
     for _ in range(n_init):
         if ctx.out_of_time():
             break
